@@ -541,6 +541,73 @@ fn grid() -> Vec<FaultCase> {
     v
 }
 
+// --------------------------------------------- later calls after a write timed out
+
+/// Blocking client with a write timeout: a large request times out part-way against a
+/// peer that has stopped reading; the peer then reads on (and never answers). The
+/// connection is unusable from then on, so a later call — made without any per-call
+/// timeout — must return an error instead of waiting forever for a response.
+#[derive(Debug, Clone, Serialize, Deserialize, Hash, PartialEq, Eq)]
+pub struct WriteTimeoutThenCall {
+    pub timeout_ms: u8,
+    pub stall_extra_ms: u8,
+    pub big_mib: u8,
+}
+
+pub fn check_later_call_after_write_timeout(c: &WriteTimeoutThenCall) -> CheckResult {
+    let (listener, addr) = super::c05::small_rcvbuf_listener().map_err(|e| Fail::new("harness-listen", e.to_string()))?;
+    let client = Client::connect(addr).map_err(|e| Fail::new("harness-connect", e.to_string()))?;
+    let wt = Duration::from_millis(20 + c.timeout_ms as u64);
+    client.set_write_timeout(Some(wt)).map_err(|e| Fail::new("harness-config", e.to_string()))?;
+    let (mut s, _) = listener.accept().map_err(|e| Fail::new("harness-accept", e.to_string()))?;
+    let stall = wt + Duration::from_millis(30 + c.stall_extra_ms as u64);
+    // peer: stall, then read everything that comes, never answer
+    let peer = std::thread::spawn(move || {
+        use std::io::Read;
+        std::thread::sleep(stall);
+        let _ = s.set_read_timeout(Some(Duration::from_secs(12)));
+        let mut buf = vec![0u8; 1 << 16];
+        let mut total = 0usize;
+        while let Ok(n) = s.read(&mut buf) {
+            if n == 0 {
+                break;
+            }
+            total += n;
+        }
+        total
+    });
+    let big = vec![0x77u8; (4 + (c.big_mib as usize % 8)) << 20];
+    let first = client.notify_with_formats("/big", 1, Some(&big), 0);
+    let interrupted = first.is_err();
+    // let the peer start reading again
+    std::thread::sleep(stall.saturating_sub(wt) + Duration::from_millis(30));
+    let cl = client.clone();
+    let (tx, rx) = std::sync::mpsc::channel();
+    std::thread::spawn(move || {
+        let _ = tx.send(cl.call_json("/later", &json!({"k": 1})).map_err(|e| e.to_string()));
+    });
+    let later = rx.recv_timeout(watchdog());
+    drop(client);
+    let _ = peer.join();
+    if interrupted {
+        match later {
+            Ok(Err(_)) => {}
+            Ok(Ok(v)) => return Err(Fail::new("unanswered-call-succeeded", format!("the later call returned {v} although nobody answered it"))),
+            Err(_) => {
+                return Err(Fail::new(
+                    "later-call-hangs",
+                    format!(
+                        "blocking Client: a {} MiB request timed out part-way (write timeout {wt:?}); a later call without a timeout had not returned {:?} later",
+                        big.len() >> 20,
+                        watchdog()
+                    ),
+                ));
+            }
+        }
+    }
+    Ok(CaseInfo::new(interrupted).class(if interrupted { "write-timed-out" } else { "write-completed" }))
+}
+
 // ------------------------------------------- fault while another send is parked
 
 /// The peer has read K requests (in flight, unanswered), then stops reading; the
@@ -1027,6 +1094,11 @@ fn queued_case() -> BoxedStrategy<QueuedCancel> {
 pub fn run(ctx: &Ctx, rep: &Report) {
     run_prop_threads(ctx, rep, "cancel-queued", ctx.tier.pick(48, 1_000), ctx.threads.min(8), &|| queued_case(), &check_queued_cancel);
     run_enum(ctx, rep, "parked-send", &parked_cases(), true, &check_parked_send);
+    let wtc: Vec<WriteTimeoutThenCall> = [(0u8, 0u8, 0u8), (10, 40, 2), (30, 100, 4), (5, 10, 7)]
+        .into_iter()
+        .map(|(timeout_ms, stall_extra_ms, big_mib)| WriteTimeoutThenCall { timeout_ms, stall_extra_ms, big_mib })
+        .collect();
+    run_enum(ctx, rep, "later-call-after-write-timeout", &wtc, false, &check_later_call_after_write_timeout);
     run_enum(ctx, rep, "fault-grid", &grid(), true, &check_fault);
     run_prop(ctx, rep, "faults", ctx.tier.pick(1_200, 90_000), &|| fault_case(), &check_fault);
     run_prop(ctx, rep, "timeouts", ctx.tier.pick(600, 36_000), &|| timeout_case(), &check_timeout);
@@ -1037,6 +1109,7 @@ pub fn replay(sub: &str, case: &serde_json::Value) -> Result<(), Fail> {
         "fault-grid" | "faults" => replay_case::<FaultCase>(case, &check_fault),
         "timeouts" => replay_case::<TimeoutCase>(case, &check_timeout),
         "parked-send" => replay_case::<ParkedCase>(case, &check_parked_send),
+        "later-call-after-write-timeout" => replay_case::<WriteTimeoutThenCall>(case, &check_later_call_after_write_timeout),
         "cancel-queued" => replay_case::<QueuedCancel>(case, &check_queued_cancel),
         _ => Err(Fail::new("replay-unknown-sub", sub.to_string())),
     }
